@@ -321,6 +321,13 @@ func (x *ctx) analyseFaceWriter(fn *ssa.Function, prefix string, ctl bool) *fwIn
 	if tokUnd == "" {
 		info.form, tokViol, tokUnd = parseFaceTokens(items, info)
 	}
+	if tokViol == "" && tokUnd == "" && body != nil && rng != nil {
+		for _, latch := range rng.loop.Latch {
+			if !body.Dominates(latch) {
+				tokViol = "the face loop can go on to the next triangle without writing the current one (the block that writes the line does not lie on every path to the loop's back edge): a face is lost"
+			}
+		}
+	}
 	x.record(ctl, "TOK-W", info.name, nil, fn, tokViol, tokUnd, "token form "+info.form)
 	return info
 }
@@ -485,6 +492,54 @@ func guardsOf(b, stop *ssa.BasicBlock) []hasPred {
 	return out
 }
 
+// foreignGuard: inside the outermost loop around b, b is only reached through
+// the edge of a condition that is not an m.Has*Attribute(const) test.
+func foreignGuard(b *ssa.BasicBlock) string {
+	var hdr *ssa.BasicBlock
+	if l := outerLoopsOf(ssau.Loops(b.Parent()), b); len(l) > 0 {
+		hdr = l[0].Header
+	}
+	headers := map[*ssa.BasicBlock]bool{}
+	for _, l := range ssau.Loops(b.Parent()) {
+		headers[l.Header] = true
+	}
+	for b != nil && b != hdr {
+		d := b.Idom()
+		if d == nil || d == hdr {
+			break
+		}
+		if ifi, ok := d.Instrs[len(d.Instrs)-1].(*ssa.If); ok && !headers[d] && len(b.Preds) == 1 && b.Preds[0] == d && d.Succs[0] != d.Succs[1] {
+			cond := ifi.Cond
+			for {
+				u, ok := cond.(*ssa.UnOp)
+				if !ok || u.Op != token.NOT {
+					break
+				}
+				cond = u.X
+			}
+			if _, ok := hasCall(cond); !ok {
+				return "a condition that is not an attribute-presence test (" + describeCond(cond) + ")"
+			}
+		}
+		b = d
+	}
+	return ""
+}
+
+func describeCond(v ssa.Value) string {
+	switch t := v.(type) {
+	case *ssa.BinOp:
+		return "comparison " + t.Op.String()
+	case *ssa.Call:
+		if f := calleeOf(t); f != nil {
+			return "call of " + f.Name()
+		}
+	case *ssa.Phi:
+		return "a merged boolean"
+	}
+	return v.Name()
+}
+
 type emission struct {
 	tag    string // v, vt, vn
 	attr   string
@@ -596,6 +651,8 @@ func (x *ctx) writerRules(root *ssa.Function, ctl bool) {
 		x.mat2(root, name, s.call, s.callees, infos, ordSite[s.call.(ssa.Instruction)], ctl)
 	}
 
+	x.facesOfEveryMesh(root, name, siteCalls, ctl)
+
 	// ---- FORM-1
 	for _, s := range sites {
 		x.form1(name, s.call, infos, ordSite[s.call.(ssa.Instruction)], ctl)
@@ -609,6 +666,51 @@ func (x *ctx) writerRules(root *ssa.Function, ctl bool) {
 
 	// ---- GROUP-1
 	x.group1(root, name, siteCalls, ctl)
+}
+
+// facesOfEveryMesh (MAT-2): no iteration of the mesh loop can finish without
+// reaching a face call (or the loop over the material ranges), and no
+// iteration of a range loop without its face call.
+func (x *ctx) facesOfEveryMesh(root *ssa.Function, name string, sites []ssa.Instruction, ctl bool) {
+	if len(sites) == 0 {
+		return
+	}
+	construct := name + "→faceWriter:every-mesh"
+	fn := sites[0].Parent()
+	loops := ssau.Loops(fn)
+	outer := outerLoopsOf(loops, sites[0].Block())
+	if len(outer) == 0 {
+		x.record(ctl, "MAT-2", construct, sites[0], nil, "", "the face calls are not inside a loop over the meshes")
+		return
+	}
+	L := outer[0]
+	must := map[ssa.Instruction]bool{}
+	viol := ""
+	for _, s := range sites {
+		if s.Parent() != fn || !L.Blocks[s.Block()] {
+			x.record(ctl, "MAT-2", construct, s, nil, "", "face calls in different loops / functions")
+			return
+		}
+		must[s] = true
+		inner := ssau.InnermostLoop(loops, s.Block())
+		if inner != nil && inner != L {
+			// range loop: entering it counts for the mesh; each of its iterations must reach the call
+			must[inner.Header.Instrs[0]] = true
+			for _, latch := range inner.Latch {
+				if !s.Block().Dominates(latch) {
+					viol = "the loop over the material ranges can go on to the next range without writing the faces of the current one (face call at " + x.P.Pos(ssau.PosOf(s)) + " is conditional): those faces are lost"
+				}
+			}
+		}
+	}
+	if viol == "" {
+		for _, succ := range L.Header.Succs {
+			if L.Blocks[succ] && canBypass(succ, L.Header, must, L.Blocks) {
+				viol = "the mesh loop can go on to the next mesh without writing the faces of the current one (neither a face call nor the material-range loop lies on every path through the body): those faces are lost"
+			}
+		}
+	}
+	x.record(ctl, "MAT-2", construct, sites[0], nil, viol, "", fmt.Sprintf("%d face call site(s); every path through the mesh loop body reaches one / the range loop", len(sites)))
 }
 
 func sitesToCalls(ins []ssa.Instruction) []ssa.CallInstruction {
@@ -1077,7 +1179,7 @@ func (x *ctx) form1(name string, call ssa.CallInstruction, infos map[*ssa.Functi
 	want := map[asg]string{{true, true}: "v/vt/vn", {true, false}: "v//vn", {false, true}: "v/vt", {false, false}: "v"}
 	var facts []string
 	for _, a := range []asg{{false, false}, {false, true}, {true, false}, {true, true}} {
-		fn, why := selectFn(v, in.Block(), func(h hasPred) (bool, bool) {
+		fn, why, sviol := selectFn(v, in, meshOfCall(call), func(h hasPred) (bool, bool) {
 			switch h.attr {
 			case normal:
 				return a.n, true
@@ -1086,6 +1188,10 @@ func (x *ctx) form1(name string, call ssa.CallInstruction, infos map[*ssa.Functi
 			}
 			return false, false
 		})
+		if sviol != "" {
+			x.record(ctl, "FORM-1", construct, in, nil, fmt.Sprintf("for a mesh with normals=%v, texture coordinates=%v: %s", a.n, a.t, sviol), "")
+			return
+		}
 		if fn == nil {
 			x.record(ctl, "FORM-1", construct, in, nil, "", fmt.Sprintf("selection of the face writer under normals=%v texcoords=%v not decided: %s", a.n, a.t, why))
 			return
@@ -1108,14 +1214,51 @@ func (x *ctx) form1(name string, call ssa.CallInstruction, infos map[*ssa.Functi
 // test has the given outcome: branches are followed from the immediate
 // dominator of each merge; boolean merges (a && b evaluated as a value) are
 // evaluated the same way.
-func selectFn(v ssa.Value, at *ssa.BasicBlock, val func(hasPred) (bool, bool)) (*ssa.Function, string) {
-	e := &selEnv{val: val}
-	return e.fn(v, 0)
+//
+// The answer for a mesh must depend on that mesh's tests alone: a value merged
+// at the header of a loop around the call (what an earlier iteration selected,
+// or the initial value before the loop) is "whatever the previous mesh used" and
+// makes the selection indefinite; so does a test made on another mesh value or
+// outside the loop.
+func selectFn(v ssa.Value, at ssa.Instruction, mesh ssa.Value, val func(hasPred) (bool, bool)) (*ssa.Function, string, string) {
+	e := &selEnv{val: val, mesh: mesh, carried: map[*ssa.BasicBlock]bool{}, inLoop: map[*ssa.BasicBlock]bool{}}
+	for _, l := range ssau.Loops(at.Parent()) {
+		if l.Blocks[at.Block()] {
+			e.carried[l.Header] = true
+			if len(l.Blocks) > len(e.inLoop) {
+				e.inLoop = l.Blocks
+			}
+		}
+	}
+	fn, why := e.fn(v, 0)
+	return fn, why, e.viol
+}
+
+// meshOfCall: the mesh whose Indices() iterator a face call receives.
+func meshOfCall(call ssa.CallInstruction) ssa.Value {
+	for _, a := range call.Common().Args {
+		if ic, ok := a.(*ssa.Call); ok && isMeshMethod(calleeOf(ic), "Indices") && len(ic.Call.Args) > 0 {
+			return ic.Call.Args[0]
+		}
+	}
+	return nil
 }
 
 type selEnv struct {
-	val func(hasPred) (bool, bool)
-	why string
+	val     func(hasPred) (bool, bool)
+	mesh    ssa.Value
+	carried map[*ssa.BasicBlock]bool // headers of the loops around the call
+	inLoop  map[*ssa.BasicBlock]bool // blocks of the outermost such loop
+	why     string
+	viol    string
+}
+
+func (e *selEnv) loopCarried(ph *ssa.Phi, what string) bool {
+	if e.carried[ph.Block()] {
+		e.viol = what + " is carried over from the previous iteration of the mesh loop (or is the value set before the loop): it is not determined by this mesh's own attribute tests"
+		return true
+	}
+	return false
 }
 
 func (e *selEnv) fn(v ssa.Value, depth int) (*ssa.Function, string) {
@@ -1132,6 +1275,9 @@ func (e *selEnv) fn(v ssa.Value, depth int) (*ssa.Function, string) {
 	case *ssa.ChangeType:
 		return e.fn(t.X, depth+1)
 	case *ssa.Phi:
+		if e.loopCarried(t, "the face writer") {
+			return nil, e.viol
+		}
 		pi, ok := e.walkTo(t.Block(), depth)
 		if !ok {
 			if e.why == "" {
@@ -1160,9 +1306,20 @@ func (e *selEnv) boolean(v ssa.Value, depth int) (bool, bool) {
 		}
 	case *ssa.Call:
 		if h, ok := hasCall(t); ok {
+			if len(e.inLoop) > 0 && !e.inLoop[t.Block()] {
+				e.viol = "an attribute test that decides the face writer is evaluated outside the mesh loop: it does not describe the mesh being written"
+				return false, false
+			}
+			if e.mesh != nil && !sameMesh(t.Call.Args[0], e.mesh) {
+				e.viol = "an attribute test that decides the face writer is made on a different mesh value than the one whose faces are written"
+				return false, false
+			}
 			return e.val(h)
 		}
 	case *ssa.Phi:
+		if e.loopCarried(t, "a condition that decides the face writer") {
+			return false, false
+		}
 		pi, ok := e.walkTo(t.Block(), depth)
 		if !ok {
 			return false, false
@@ -1362,6 +1519,18 @@ func (x *ctx) attrLoops(root *ssa.Function, name string, fns []*ssa.Function, re
 			x.record(ctl, "AXIS-3", aconstruct, c, nil, "the record is not bracketed by StartEntry … FinishEntry in the block that writes its components (record lost or glued)", "")
 			continue
 		}
+		if rr, _ := positionRange(c.Call.Args[1], loops); rr != nil {
+			skipped := false
+			for _, latch := range rr.loop.Latch {
+				if !blk.Dominates(latch) {
+					skipped = true
+				}
+			}
+			if skipped {
+				x.record(ctl, "AXIS-3", aconstruct, c, nil, "the attribute loop can go on to the next element without writing a record for the current one: every later record is numbered one lower than the index the faces reference", "")
+				continue
+			}
+		}
 		x.record(ctl, "AXIS-3", aconstruct, c, nil, "", "", fmt.Sprintf("%s written in one entry", strings.Join(order, ",")))
 
 		// STREAM-W: record tag ↔ attribute ↔ arity (per call site when the loop lives in a helper)
@@ -1429,6 +1598,10 @@ func (x *ctx) attrLoops(root *ssa.Function, name string, fns []*ssa.Function, re
 				continue
 			}
 			guards := guardsOf(in.block, nil)
+			if other := foreignGuard(in.block); other != "" {
+				x.record(ctl, "STREAM-W", sconstruct, in.at, nil, fmt.Sprintf("whether the %q records of a mesh are emitted also depends on %s: the faces (and the running base) assume one record per element of every mesh that has the attribute", tg, other), "")
+				continue
+			}
 			x.record(ctl, "STREAM-W", sconstruct, in.at, nil, "", "", fmt.Sprintf("%q ← %s(%q), %d components, emitted under %v", tg, g2, a2, dim, guards))
 			ems = append(ems, emission{tag: tg, attr: a2, getter: g2, dim: dim, guards: guards, at: c})
 		}
@@ -1922,6 +2095,7 @@ func (x *ctx) group1(root *ssa.Function, name string, sites []ssa.Instruction, c
 		construct := fmt.Sprintf("%s→faceWriter#%d:group", name, i+1)
 		ok := false
 		badFmt := ""
+		skipViol := ""
 		for _, g := range gcalls {
 			if g.call.Parent() != s.Parent() {
 				continue
@@ -1950,16 +2124,123 @@ func (x *ctx) group1(root *ssa.Function, name string, sites []ssa.Instruction, c
 				continue
 			}
 			ok = true
+			if why := x.groupLineSkips(g.call, s, hdr, nameField); why != "" {
+				skipViol = why
+			}
 		}
 		switch {
+		case ok && skipViol != "":
+			x.record(ctl, "GROUP-1", construct, s, nil, skipViol, "")
 		case ok:
-			x.record(ctl, "GROUP-1", construct, s, nil, "", "", "a \"g %s\" line with ObjMesh.Name precedes the mesh's faces in the same iteration")
+			x.record(ctl, "GROUP-1", construct, s, nil, "", "", "a \"g %s\" line with ObjMesh.Name precedes the mesh's faces in the same iteration; it can only be skipped on tests of len(meshes) / Name == \"\"")
 		case badFmt != "":
 			x.record(ctl, "GROUP-1", construct, s, nil, badFmt, "")
 		default:
 			x.record(ctl, "GROUP-1", construct, s, nil, "no 'g <name>' line carrying ObjMesh.Name is written before the faces of a mesh: groups cannot be recovered on reading", "")
 		}
 	}
+}
+
+// groupLineSkips: the branches that decide whether the group line is skipped
+// before the faces at site may only test the number of meshes and the name
+// being empty (a single anonymous mesh needs no g line). Anything else — the
+// previous mesh's name, a flag carried over — merges or loses groups.
+func (x *ctx) groupLineSkips(g *ssa.Call, site ssa.Instruction, hdr *ssa.BasicBlock, nameField *types.Var) string {
+	fn := g.Parent()
+	var within map[*ssa.BasicBlock]bool
+	if l := outerLoopsOf(ssau.Loops(fn), site.Block()); len(l) > 0 {
+		within = l[0].Blocks
+	}
+	reach := func(from *ssa.BasicBlock, target ssa.Instruction, avoid ssa.Instruction) bool {
+		seen := map[*ssa.BasicBlock]bool{}
+		var walk func(b *ssa.BasicBlock) bool
+		walk = func(b *ssa.BasicBlock) bool {
+			if seen[b] || b == hdr || (within != nil && !within[b]) {
+				return false
+			}
+			seen[b] = true
+			for _, in := range b.Instrs {
+				if avoid != nil && in == avoid {
+					return false
+				}
+				if in == target {
+					return true
+				}
+			}
+			for _, s := range b.Succs {
+				if walk(s) {
+					return true
+				}
+			}
+			return false
+		}
+		return walk(from)
+	}
+	var allowed func(v ssa.Value, d int) bool
+	allowed = func(v ssa.Value, d int) bool {
+		if d > 6 {
+			return false
+		}
+		switch t := v.(type) {
+		case *ssa.Const:
+			return true
+		case *ssa.UnOp:
+			if t.Op == token.NOT {
+				return allowed(t.X, d+1)
+			}
+		case *ssa.Phi:
+			for _, e := range t.Edges {
+				if !allowed(e, d+1) {
+					return false
+				}
+			}
+			return !(hdr != nil && t.Block() == hdr)
+		case *ssa.BinOp:
+			for _, pair := range [][2]ssa.Value{{t.X, t.Y}, {t.Y, t.X}} {
+				if _, isC := pair[1].(*ssa.Const); !isC {
+					continue
+				}
+				if c, ok := stripConv(pair[0]).(*ssa.Call); ok && ssau.Builtin(c) == "len" {
+					if _, isP := c.Call.Args[0].(*ssa.Parameter); isP {
+						return true
+					}
+				}
+				if s, ok := constStr(pair[1]); ok && s == "" && derivesFromField(pair[0], nameField, 0) {
+					return true
+				}
+			}
+		}
+		return false
+	}
+	bad := ""
+	for _, b := range fn.Blocks {
+		if within != nil && !within[b] {
+			continue
+		}
+		ifi, ok := b.Instrs[len(b.Instrs)-1].(*ssa.If)
+		if !ok || b == hdr {
+			continue
+		}
+		leadsToG := false
+		for _, sc := range b.Succs {
+			if reach(sc, g, nil) {
+				leadsToG = true
+			}
+		}
+		if !leadsToG {
+			continue
+		}
+		skips := false
+		for _, s := range b.Succs {
+			if reach(s, site, g) {
+				skips = true
+			}
+		}
+		if skips && !allowed(ifi.Cond, 0) {
+			bad = "whether the 'g <name>' line of a mesh is written depends on a condition (" + describeCond(ifi.Cond) + " at " + x.P.Pos(ssau.PosOf(ifi)) + ") other than the number of meshes / the name being empty: meshes whose line is skipped are merged into the previous group on reading"
+		}
+	}
+	return bad
 }
 
 func derivesFromField(v ssa.Value, f *types.Var, d int) bool {
